@@ -468,8 +468,12 @@ impl PartialEq for Quantity {
 
 impl PartialOrd for Quantity {
     fn partial_cmp(&self, other: &Self) -> Option<std::cmp::Ordering> {
-        let other_converted = other.convert_to(self.unit()).ok()?;
-        self.value.partial_cmp(&other_converted.value)
+        match other.convert_to(self.unit()) {
+            Ok(other_converted) => self.value.partial_cmp(&other_converted.value),
+            // A zero quantity can be converted to every unit (see `convert_to`)
+            Err(_) if self.is_zero() => self.value.partial_cmp(&other.value),
+            Err(_) => None,
+        }
     }
 }
 
@@ -497,13 +501,16 @@ impl Quantity {
             return QuantityOrdering::NanOperand;
         }
 
-        let Ok(other_converted) = other.convert_to(self.unit()) else {
-            return QuantityOrdering::IncompatibleUnits;
+        let (lhs_value, rhs_value) = match other.convert_to(self.unit()) {
+            Ok(other_converted) => (self.value, other_converted.value),
+            // A zero quantity can be converted to every unit (see `convert_to`), so
+            // `0 < 2 m` has to work just like `2 m > 0` does.
+            Err(_) if self.is_zero() => (self.value, other.value),
+            Err(_) => return QuantityOrdering::IncompatibleUnits,
         };
 
-        let cmp = self
-            .value
-            .partial_cmp(&other_converted.value)
+        let cmp = lhs_value
+            .partial_cmp(&rhs_value)
             .expect("unexpectedly got a None partial_cmp from non-NaN arguments");
 
         QuantityOrdering::Ok(cmp)
